@@ -366,6 +366,16 @@ def ptsStr (l : List Pt) : String :=
 def astarCap : Nat := 400
 
 open AdaptaVerif.Model.AStar in
+/-- some vertex has two edges in the same direction to vertices at DIFFERENT points (bypass edges around
+    other connectors' end points): only there `list::sort` by `CmpVisEdgeRotation` leaves an order that
+    depends on the earlier sorts of the same list -/
+def parallelEdges (g : Graph) : Bool :=
+  g.adj.zipIdx.any fun (l, u) =>
+    l.any fun e => l.any fun e' => e.to ≠ e'.to && g.pt e.to != g.pt e'.to &&
+      AdaptaVerif.Model.Bends.orthogonalDirection (g.pt u) (g.pt e.to) ==
+        AdaptaVerif.Model.Bends.orthogonalDirection (g.pt u) (g.pt e'.to)
+
+open AdaptaVerif.Model.AStar in
 /-- `none`: model search and C++ route agree (or no dump / graph too large); `some msg`: they differ.
     Compared: the as-coded cost (`search`'s g: hop lengths + bend penalties, last hop from a cost target
     free) of the C++ `route()` against the g of the node the model search returns, exactly; and the
@@ -424,17 +434,48 @@ def checkAStar (c : Case) (pen : Rat) (route : List (Rat × Rat)) : Option Strin
       [("astar.run", 1), ("astar.explored", done.length),
        (if epsFree then "astar.eps-irrelevant" else "astar.eps-matters", 1),
        (if looped then "astar.chain-has-loop" else "astar.chain-simple", 1)] ++ consStats
+    -- expansion order: every node the real search popped (DebugHandler tap) against the model's DONE list
+    let popCheck : Option String × List (String × Nat) :=
+      match (c.get1 "apop").bind nums? with
+      | none => (none, [("astar.no-pop-trace", 1)])
+      | some pv =>
+        let impl : List (Pt × Option Pt) := (List.range (pv.size / 5)).map fun i =>
+          (⟨pv[5*i]!, pv[5*i+1]!⟩, if pv[5*i+2]! = 1 then some ⟨pv[5*i+3]!, pv[5*i+4]!⟩ else none)
+        let model : List (Pt × Option Pt) := done.map fun n => (g.pt n.v, n.pv.map g.pt)
+        if impl = model then (none, [("astar.pop-trace-equal", 1), ("astar.pops-compared", model.length)])
+        else
+          let k := ((impl.zip model).takeWhile fun (a, b) => a == b).length
+          let sh := fun (l : List (Pt × Option Pt)) => match l[k]? with
+            | some (p, q) => ptsStr (q.toList ++ [p])
+            | none => "(end)"
+          (some s!"A* search: expansion order differs at pop {k} (of {impl.length} C++ / {model.length} model): C++ pops {sh impl}, model pops {sh model}", [])
+    -- optional library hook (harness/c05_astar_hook.patch): g, exploredCount, PENDING.size(), timestamp
+    let hookCheck : Option String × List (String × Nat) :=
+      match (c.get1 "ahook").bind nums? with
+      | none => (none, [])
+      | some hv =>
+        match searchSt g.problem g.fuel (init g.problem) with
+        | none => (some "A* model (searchSt) found nothing", [])
+        | some (b2, st2) =>
+          let m : List Rat := [b2.g, (st2.done.length : Rat), (st2.pending.length : Rat), (st2.time : Rat)]
+          if hv.toList = m then (none, [("astar.hook-equal", 1)])
+          else (some s!"A* search: hook values (g, explored, pending, timestamp) C++ {hv.toList.map ratToString} ≠ model {m.map ratToString}", [])
     if chainCost ≠ b.g then
       return (some s!"A* model self-check: g {ratToString b.g} ≠ cost of its own node chain {ratToString chainCost}", stats)
-    if rpts = mpts then return (none, ("astar.path-equal", 1) :: stats)
+    let stats := stats ++ popCheck.2 ++ hookCheck.2
+    if rpts = mpts then
+      -- same route: the expansion order and the hook values must agree too, unless the graph has parallel edges
+      let sameDir0 := parallelEdges g
+      match popCheck.1, hookCheck.1 with
+      | some m, _ => if sameDir0 then return (none, ("astar.pop-trace-differs-parallel-edges", 1) :: ("astar.path-equal", 1) :: stats)
+                     else return (some m, stats)
+      | none, some m => return (some m, stats)
+      | none, none => return (none, ("astar.path-equal", 1) :: stats)
     if implCost ≠ modelCost then
       return (some s!"A* search: as-coded cost of the C++ route {ratToString implCost} ≠ that of the model's route {ratToString modelCost} (search g {ratToString b.g}); C++ {ptsStr rpts}; model {ptsStr mpts}", stats)
     -- equal cost, different vertices: only acceptable where the C++ edge order is history dependent
     -- (several orthogVisList entries of one vertex in the same direction)
-    let sameDir := g.adj.zipIdx.any fun (l, u) =>
-      l.any fun e => l.any fun e' => e.to ≠ e'.to &&
-        AdaptaVerif.Model.Bends.orthogonalDirection (g.pt u) (g.pt e.to) ==
-          AdaptaVerif.Model.Bends.orthogonalDirection (g.pt u) (g.pt e'.to)
+    let sameDir := parallelEdges g
     if sameDir then return (none, ("astar.path-differs-equal-cost-parallel-edges", 1) :: stats)
     return (some s!"A* search: C++ route and model route differ at equal as-coded cost {ratToString implCost} although no vertex has two edges in one direction (tie broken differently); C++ {ptsStr rpts}; model {ptsStr mpts}", stats)
 
